@@ -264,4 +264,307 @@ theorem preserve_loop_meaning (html js : Bool) (src : Bytes) (n : Nat) (nc : Boo
   simp only [appendUnquote, ↓reduceIte]
   exact preserve_meaning html js hu junk Err.ok
 
+/-! ### The loop output is again a strict literal and a fixed point of the loop -/
+
+/-- `l` passes through the PreserveRawStrings loop unchanged, whatever follows -/
+def Fixed (html js : Bool) (l : Bytes) : Prop :=
+  ∀ (rest : Bytes) (k : Nat), preserveLoop html js (l.length + k) (l ++ rest) = l ++ preserveLoop html js k rest
+
+theorem fixed_nil (html js : Bool) : Fixed html js [] := by intro rest k; simp
+theorem fixed_append {html js : Bool} {a b : Bytes} (ha : Fixed html js a) (hb : Fixed html js b) : Fixed html js (a ++ b) := by
+  intro rest k
+  rw [List.append_assoc, List.length_append, Nat.add_assoc, ha, hb, List.append_assoc]
+theorem fixed_inert {html js : Bool} {l : Bytes} (h : ∀ b ∈ l, Inert b) : Fixed html js l :=
+  fun rest k => PL_run html js l h rest k
+
+theorem spec_hexDigit_hexLower : ∀ n : Fin 16, hexDigitVal (hexLower n.val) = some n.val := by decide +kernel
+theorem inert_hexLower : ∀ n : Fin 16, Inert (hexLower n.val) := by unfold Inert; decide +kernel
+
+theorem hex4_digits (a b c d : Nat) (ha : a < 16) (hb : b < 16) (hc : c < 16) (hd : d < 16) :
+    hex4 (hexLower a) (hexLower b) (hexLower c) (hexLower d) = some (a * 4096 + b * 256 + c * 16 + d) := by
+  have h1 := spec_hexDigit_hexLower ⟨a, ha⟩
+  have h2 := spec_hexDigit_hexLower ⟨b, hb⟩
+  have h3 := spec_hexDigit_hexLower ⟨c, hc⟩
+  have h4 := spec_hexDigit_hexLower ⟨d, hd⟩
+  simp only at h1 h2 h3 h4
+  simp only [hex4, h1, h2, h3, h4]
+
+theorem hex4_u16 (x : Nat) (hx : x < 65536) :
+    hex4 (hexLower ((x >>> 12) % 16)) (hexLower ((x >>> 8) % 16)) (hexLower ((x >>> 4) % 16)) (hexLower (x % 16)) = some x := by
+  rw [hex4_digits _ _ _ _ (Nat.mod_lt _ (by omega)) (Nat.mod_lt _ (by omega)) (Nat.mod_lt _ (by omega)) (Nat.mod_lt _ (by omega))]
+  simp only [Nat.shiftRight_eq_div_pow]
+  congr 1; omega
+
+theorem inert_u16 (x : Nat) : ∀ b ∈ appendEscapedUTF16 x, Inert b := by
+  intro b hb
+  simp only [appendEscapedUTF16, List.mem_cons, List.not_mem_nil, or_false] at hb
+  rcases hb with rfl | rfl | rfl | rfl | rfl | rfl
+  · exact inert_5c
+  · exact inert_75
+  · exact inert_hexLower ⟨_, Nat.mod_lt _ (by omega)⟩
+  · exact inert_hexLower ⟨_, Nat.mod_lt _ (by omega)⟩
+  · exact inert_hexLower ⟨_, Nat.mod_lt _ (by omega)⟩
+  · exact inert_hexLower ⟨_, Nat.mod_lt _ (by omega)⟩
+
+/-- `\uXXXX` as emitted by appendEscapedUTF16, as a production of the meaning relation -/
+theorem unescapes_u16 (x : Nat) (hx : x < 65536) (hs : isSurrogate x = false) {rest m : Bytes} (h : Unescapes rest m) :
+    Unescapes (appendEscapedUTF16 x ++ rest) (encodeRune x ++ m) := by
+  simp only [appendEscapedUTF16, List.cons_append, List.nil_append]
+  exact Unescapes.unicode (hex4_u16 x hx) hs h
+
+theorem fixed_ascii {html js : Bool} (c : UInt8) (h0 : c.toNat < runeSelf) (hh : (isHTMLChar c.toNat && html) = false) :
+    Fixed html js [c] := by
+  intro rest k
+  have : [c].length + k = k + 1 := by simp; omega
+  rw [this]; exact PL_ascii_plain html js k c rest h0 hh
+
+theorem fixed_multi {html js : Bool} (c : UInt8) (p' : Bytes) (r : Nat) (h0 : ¬ c.toNat < runeSelf)
+    (hdt : ∀ q, decodeRune (c :: (p' ++ q)) = (r, (c :: p').length)) (hj : ¬ ((r = 0x2028 ∨ r = 0x2029) ∧ js = true)) :
+    Fixed html js (c :: p') := by
+  intro rest k
+  have hj' : ¬ (((decodeRune (c :: (p' ++ rest))).1 = 0x2028 ∨ (decodeRune (c :: (p' ++ rest))).1 = 0x2029) ∧ js = true) := by
+    rw [hdt]; exact hj
+  have hk : (c :: p').length + k = (p'.length + k) + 1 := by simp; omega
+  rw [hk, List.cons_append, PL_multi_plain html js _ c _ h0 hj', hdt]
+  have hmin : min (c :: p').length (p'.length + k + 1) = (c :: p').length := by simp
+  have htake : List.take (c :: p').length (c :: (p' ++ rest)) = c :: p' := by
+    rw [← List.cons_append]; exact List.take_left
+  have hdrop : List.drop (c :: p').length (c :: (p' ++ rest)) = rest := by
+    rw [← List.cons_append]; exact List.drop_left
+  have hsub : p'.length + k + 1 - (c :: p').length = k := by simp
+  rw [hmin, htake, hdrop, hsub]
+
+/-- Shape of the loop output over a body with meaning `m`: some `tb` followed by the closing quote, where `tb` is left
+unchanged by the loop and has the same meaning `m`. -/
+theorem preserve_shape (html js : Bool) {body m : Bytes} (h : Unescapes body m) :
+    ∃ tb, (∀ junk, preserveLoop html js (body.length + 1) (body ++ 0x22 :: junk) = tb ++ [0x22]) ∧
+      Fixed html js tb ∧ Unescapes tb m := by
+  induction h with
+  | nil =>
+    refine ⟨[], fun junk => ?_, fixed_nil html js, Unescapes.nil⟩
+    simp only [List.length_nil, Nat.zero_add, List.nil_append]
+    rw [PL_ascii_plain html js 0 0x22 junk (by decide) (by simp [isHTMLChar]), preserveLoop_zero]
+  | @unescaped p rest m r hd hp hi h20 hq hb hrest ih =>
+    obtain ⟨tb, hout, hfix, hun⟩ := ih
+    match p, hp with
+    | c :: p', _ =>
+      by_cases h0 : c.toNat < runeSelf
+      · have hda := decodeRune_ascii c p' h0
+        have hd0 := hd
+        rw [hda] at hd
+        have hp' : p' = [] := by
+          have : (c :: p').length = 1 := by injection hd with _ h2; exact h2.symm
+          simpa using this
+        have hr : r = c.toNat := by injection hd with h1 _; exact h1.symm
+        subst hp' hr
+        have hk : ([c] ++ rest).length + 1 = (rest.length + 1) + 1 := by simp
+        cases hh : (isHTMLChar c.toNat && html)
+        · refine ⟨[c] ++ tb, fun junk => ?_, fixed_append (fixed_ascii c h0 hh) hfix, Unescapes.unescaped hd0 (by simp) hi h20 hq hb hun⟩
+          rw [hk]; simp only [List.cons_append, List.nil_append]
+          rw [PL_ascii_plain html js _ c _ h0 hh, hout]
+        · refine ⟨appendEscapedASCII c.toNat ++ tb, fun junk => ?_, fixed_append (fixed_inert ?_) hfix, ?_⟩
+          · rw [hk]; simp only [List.cons_append, List.nil_append]
+            rw [PL_ascii_esc html js _ c _ h0 hh, hout, List.append_assoc]
+          · have hc : isHTMLChar c.toNat = true := by cases h1 : isHTMLChar c.toNat <;> simp_all
+            have : appendEscapedASCII c.toNat = appendEscapedUTF16 c.toNat := by
+              simp only [isHTMLChar, Bool.or_eq_true, decide_eq_true_eq] at hc
+              rcases hc with (h | h) | h <;> rw [h] <;> rfl
+            rw [this]; exact inert_u16 _
+          · have hc : isHTMLChar c.toNat = true := by cases h1 : isHTMLChar c.toNat <;> simp_all
+            have : appendEscapedASCII c.toNat = appendEscapedUTF16 c.toNat := by
+              simp only [isHTMLChar, Bool.or_eq_true, decide_eq_true_eq] at hc
+              rcases hc with (h | h) | h <;> rw [h] <;> rfl
+            rw [this]
+            have := unescapes_u16 c.toNat (by simp only [runeSelf] at h0; omega) (by simp [isSurrogate]; simp only [runeSelf] at h0; omega) hun
+            rw [encodeRune_ascii c h0] at this
+            exact this
+      · have h1 : 1 < (decodeRune (c :: p')).2 := by
+          rcases decodeRune_high c p' h0 with h | h
+          · exact h
+          · simp [illFormedHead, h] at hi
+        have hlen : (decodeRune (c :: p')).2 = (c :: p').length := by rw [hd]
+        have hr : (decodeRune (c :: p')).1 = r := by rw [hd]
+        have hdt : ∀ q, decodeRune (c :: (p' ++ q)) = (r, (c :: p').length) := by
+          intro q
+          have := decodeRune_take_append (c :: p') q h1
+          rw [hlen, List.take_length, hd] at this
+          exact this
+        have hk : ((c :: p') ++ rest).length + 1 = ((p'.length + rest.length + 1)) + 1 := by simp
+        have hsub : (p'.length + rest.length + 1) + 1 - (c :: p').length = rest.length + 1 := by simp; omega
+        have hdrop : ∀ q : Bytes, List.drop (c :: p').length (c :: (p' ++ q)) = q := by
+          intro q; rw [← List.cons_append]; exact List.drop_left
+        by_cases hj : (r = 0x2028 ∨ r = 0x2029) ∧ js = true
+        · have hr16 : r < 0x10000 := by omega
+          have hne : ¬ ((decodeRune (c :: p')).1 = runeError ∧ (decodeRune (c :: p')).2 = 1) := by omega
+          have hen := encodeRune_decodeRune c p' hne
+          rw [hr, hlen, List.take_length] at hen
+          refine ⟨appendEscapedUTF16 r ++ tb, fun junk => ?_, fixed_append (fixed_inert (inert_u16 r)) hfix, ?_⟩
+          · have hj' : ((decodeRune (c :: (p' ++ (rest ++ 0x22 :: junk)))).1 = 0x2028 ∨
+                (decodeRune (c :: (p' ++ (rest ++ 0x22 :: junk)))).1 = 0x2029) ∧ js = true := by rw [hdt]; exact hj
+            rw [hk, List.append_assoc, List.cons_append, PL_multi_esc html js _ c _ h0 hj', hdt, hsub, hdrop,
+              appendEscapedUnicode_bmp _ hr16, hout, List.append_assoc]
+          · have := unescapes_u16 r hr16 (by simp [isSurrogate]; omega) hun
+            rw [hen] at this; exact this
+        · refine ⟨(c :: p') ++ tb, fun junk => ?_, fixed_append (fixed_multi c p' r h0 hdt hj) hfix,
+            Unescapes.unescaped hd (by simp) hi h20 hq hb hun⟩
+          have := fixed_multi (html := html) (js := js) c p' r h0 hdt hj (rest ++ 0x22 :: junk) (rest.length + 1)
+          have hk2 : ((c :: p') ++ rest).length + 1 = (c :: p').length + (rest.length + 1) := by simp; omega
+          rw [hk2, List.append_assoc, this, hout, List.append_assoc]
+  | @simple e' v rest m hmem _ ih =>
+    obtain ⟨tb, hout, hfix, hun⟩ := ih
+    have hin : ∀ b ∈ [0x5c, e'], Inert b := by
+      intro b hb; simp at hb; rcases hb with rfl | rfl
+      · exact inert_5c
+      · exact inert_of_simple _ v hmem
+    refine ⟨[0x5c, e'] ++ tb, fun junk => ?_, fixed_append (fixed_inert hin) hfix, Unescapes.simple hmem hun⟩
+    have hk : (0x5c :: e' :: rest).length + 1 = [0x5c, e'].length + (rest.length + 1) := by simp; omega
+    rw [hk, show (0x5c :: e' :: rest) ++ 0x22 :: junk = [0x5c, e'] ++ (rest ++ 0x22 :: junk) from rfl,
+      PL_run html js _ hin, hout, List.append_assoc]
+  | @unicode a b c d v rest m h4 hs _ ih =>
+    obtain ⟨tb, hout, hfix, hun⟩ := ih
+    obtain ⟨ia, ib, ic, id⟩ := inert_hex4 h4
+    have hin : ∀ x ∈ [0x5c, 0x75, a, b, c, d], Inert x := by
+      intro x hx; simp at hx
+      rcases hx with rfl | rfl | rfl | rfl | rfl | rfl
+      · exact inert_5c
+      · exact inert_75
+      all_goals assumption
+    refine ⟨[0x5c, 0x75, a, b, c, d] ++ tb, fun junk => ?_, fixed_append (fixed_inert hin) hfix, Unescapes.unicode h4 hs hun⟩
+    have hk : (0x5c :: 0x75 :: a :: b :: c :: d :: rest).length + 1 = [0x5c, 0x75, a, b, c, d].length + (rest.length + 1) := by
+      simp; omega
+    rw [hk, show (0x5c :: 0x75 :: a :: b :: c :: d :: rest) ++ 0x22 :: junk = [0x5c, 0x75, a, b, c, d] ++ (rest ++ 0x22 :: junk) from rfl,
+      PL_run html js _ hin, hout, List.append_assoc]
+  | @pair a b c d a' b' c' d' hi lo rest m h1 h2 hh hl _ ih =>
+    obtain ⟨tb, hout, hfix, hun⟩ := ih
+    obtain ⟨ia, ib, ic, id⟩ := inert_hex4 h1
+    obtain ⟨ja, jb, jc, jd⟩ := inert_hex4 h2
+    have hin : ∀ x ∈ [0x5c, 0x75, a, b, c, d, 0x5c, 0x75, a', b', c', d'], Inert x := by
+      intro x hx; simp at hx
+      rcases hx with rfl | rfl | rfl | rfl | rfl | rfl | rfl | rfl | rfl | rfl | rfl | rfl
+      · exact inert_5c
+      · exact inert_75
+      · exact ia
+      · exact ib
+      · exact ic
+      · exact id
+      · exact inert_5c
+      · exact inert_75
+      all_goals assumption
+    refine ⟨[0x5c, 0x75, a, b, c, d, 0x5c, 0x75, a', b', c', d'] ++ tb, fun junk => ?_, fixed_append (fixed_inert hin) hfix,
+      Unescapes.pair h1 h2 hh hl hun⟩
+    have hk : (0x5c :: 0x75 :: a :: b :: c :: d :: 0x5c :: 0x75 :: a' :: b' :: c' :: d' :: rest).length + 1 =
+        [0x5c, 0x75, a, b, c, d, 0x5c, 0x75, a', b', c', d'].length + (rest.length + 1) := by simp; omega
+    rw [hk, show (0x5c :: 0x75 :: a :: b :: c :: d :: 0x5c :: 0x75 :: a' :: b' :: c' :: d' :: rest) ++ 0x22 :: junk =
+      [0x5c, 0x75, a, b, c, d, 0x5c, 0x75, a', b', c', d'] ++ (rest ++ 0x22 :: junk) from rfl,
+      PL_run html js _ hin, hout, List.append_assoc]
+
+open JsonV.Lemmas.QuoteCanon in
+/-- A body with a meaning (`Unescapes`) followed by the closing quote is consumed by the STRICT scanner. -/
+theorem csLoop_of_unescapes {b m : Bytes} (h : Unescapes b m) (tail : Bytes) (n : Nat) (nc : Bool) :
+    ∃ nc', csLoop true (b ++ 0x22 :: tail) n nc = (n + b.length + 1, Err.ok, nc') := by
+  induction h generalizing n nc with
+  | nil =>
+    refine ⟨nc, ?_⟩
+    rw [List.nil_append, csLoop_stop (off := 1) (e := .ok) (nc' := false) n nc (by simp [csStep, noEscape])]; simp
+  | @unescaped p rest m r hd hp hi h20 hq hb _ ih =>
+    match p, hp with
+    | c :: p', _ =>
+      by_cases h0 : c.toNat < runeSelf
+      · have hda := decodeRune_ascii c p' h0
+        rw [hda] at hd
+        have hp' : p' = [] := by
+          have : (c :: p').length = 1 := by injection hd with _ h2; exact h2.symm
+          simpa using this
+        have hr : r = c.toNat := by injection hd with h1 _; exact h1.symm
+        subst hp' hr
+        have hne : noEscape c.toNat = true := by
+          simp only [noEscape, Bool.and_eq_true, decide_eq_true_eq, ne_eq]
+          exact ⟨⟨⟨h0, h20⟩, hb⟩, hq⟩
+        obtain ⟨nc', h'⟩ := ih (n + 1) (nc || false)
+        refine ⟨nc', ?_⟩
+        simp only [List.cons_append, List.nil_append]
+        rw [csLoop_cont n nc (csStep_plain true c _ hne)]
+        simp only [List.drop_succ_cons, List.drop_zero, h']
+        simp; omega
+      · have h1 : 1 < (decodeRune (c :: p')).2 := by
+          rcases decodeRune_high c p' h0 with h | h
+          · exact h
+          · simp [illFormedHead, h] at hi
+        have hlen : (decodeRune (c :: p')).2 = (c :: p').length := by rw [hd]
+        have hstep := csStep_multi true c p' (rest ++ 0x22 :: tail) h0 h1
+        rw [hlen, List.take_length] at hstep
+        obtain ⟨nc', h'⟩ := ih (n + (c :: p').length) (nc || false)
+        refine ⟨nc', ?_⟩
+        rw [List.append_assoc, csLoop_cont n nc hstep, List.drop_left, h']
+        simp only [List.length_append]; congr 1; omega
+  | @simple e' v rest m hmem _ ih =>
+    have hstep : ∃ nc1, csStep true (0x5c :: e' :: (rest ++ 0x22 :: tail)) = .cont 2 nc1 := by
+      rw [csStep_backslash]
+      simp only [simpleEscapes, List.mem_cons, Prod.mk.injEq, List.not_mem_nil, or_false] at hmem
+      rcases hmem with ⟨rfl, _⟩ | ⟨rfl, _⟩ | ⟨rfl, _⟩ | ⟨rfl, _⟩ | ⟨rfl, _⟩ | ⟨rfl, _⟩ | ⟨rfl, _⟩ | ⟨rfl, _⟩ <;>
+        simp [csEscape]
+    obtain ⟨nc1, hs⟩ := hstep
+    obtain ⟨nc', h'⟩ := ih (n + 2) (nc || nc1)
+    refine ⟨nc', ?_⟩
+    simp only [List.cons_append]
+    rw [csLoop_cont n nc hs]
+    simp only [List.drop_succ_cons, List.drop_zero, h']
+    simp; omega
+  | @unicode a b c d v rest m h4 hs _ ih =>
+    have hstep : ∃ nc1, csStep true (0x5c :: 0x75 :: a :: b :: c :: d :: (rest ++ 0x22 :: tail)) = .cont 6 nc1 := by
+      rw [csStep_backslash]
+      simp [csEscape, csEscapeU, parseHex_eq_hex4, h4, hs]
+    obtain ⟨nc1, hs'⟩ := hstep
+    obtain ⟨nc', h'⟩ := ih (n + 6) (nc || nc1)
+    refine ⟨nc', ?_⟩
+    simp only [List.cons_append]
+    rw [csLoop_cont n nc hs']
+    simp only [List.drop_succ_cons, List.drop_zero, h']
+    simp; omega
+  | @pair a b c d a' b' c' d' hi lo rest m h1 h2 hh hl _ ih =>
+    have hsur : isSurrogate hi = true := by
+      simp only [isHighSurrogate, isSurrogate, Bool.and_eq_true, decide_eq_true_eq] at hh ⊢; omega
+    have hne : ¬ (utf16DecodeRune hi lo = runeError) := by
+      simp only [utf16DecodeRune, hh, hl, Bool.and_self, ↓reduceIte, runeError]; omega
+    have hstep : ∃ nc1, csStep true (0x5c :: 0x75 :: a :: b :: c :: d :: 0x5c :: 0x75 :: a' :: b' :: c' :: d' :: (rest ++ 0x22 :: tail)) = .cont 12 nc1 := by
+      rw [csStep_backslash]
+      simp [csEscape, csEscapeU, csSurrogate, parseHex_eq_hex4, h1, h2, hsur, hne]
+    obtain ⟨nc1, hs'⟩ := hstep
+    obtain ⟨nc', h'⟩ := ih (n + 12) (nc || nc1)
+    refine ⟨nc', ?_⟩
+    simp only [List.cons_append]
+    rw [csLoop_cont n nc hs']
+    simp only [List.drop_succ_cons, List.drop_zero, h']
+    simp; omega
+
+/-- a literal with a meaning is a string of C01's strict grammar -/
+theorem jstring_of_unescapes {b m : Bytes} (h : Unescapes b m) : JsonV.Spec.Grammar.JString true (0x22 :: (b ++ [0x22])) := by
+  obtain ⟨nc, hc⟩ := csLoop_of_unescapes h [] 1 false
+  have hcs : consumeString true (0x22 :: (b ++ [0x22])) = ((0x22 :: (b ++ [0x22])).length, Err.ok, nc) := by
+    simp only [consumeString, ↓reduceIte, hc]; simp; omega
+  have := (JsonV.Lemmas.GlueQuote.consumeString_grammar _ true _).mp ⟨nc, hcs⟩
+  rw [List.take_length] at this
+  exact this.2
+
+/-- **`preserve_is_jstring` / `preserve_idem` / meaning** for a literal the strict scanner accepts (`consumeString true
+src = (n, ok, _)`): the PreserveRawStrings loop's output is again a literal of the strict grammar, running the loop on
+it again (same flags) returns it unchanged, and it unquotes to the same text without error. -/
+theorem preserve_strict (html js : Bool) (src : Bytes) (n : Nat) (nc : Bool) (h : consumeString true src = (n, Err.ok, nc)) :
+    let out := preserveLoop html js n src
+    JsonV.Spec.Grammar.JString true out ∧
+    (∀ junk, preserveLoop html js out.length (out ++ junk) = out) ∧
+    appendUnquote out = appendUnquote (src.take n) := by
+  obtain ⟨body, m, junk, hsrc, hn, hu, hm⟩ := consume_strict_meaning src n nc h
+  obtain ⟨tb, hout, hfix, hun⟩ := preserve_shape html js hu
+  have hO : preserveLoop html js n src = 0x22 :: (tb ++ [0x22]) := by
+    rw [hsrc, hn, PL_ascii_plain html js (body.length + 1) 0x22 _ (by decide) (by simp [isHTMLChar]), hout]
+  simp only [hO]
+  refine ⟨jstring_of_unescapes hun, fun junk' => ?_, ?_⟩
+  · have hl : (0x22 :: (tb ++ [0x22])).length = (tb.length + 1) + 1 := by simp
+    have e : (tb ++ [0x22]) ++ junk' = tb ++ 0x22 :: junk' := by simp
+    rw [hl, List.cons_append, PL_ascii_plain html js _ 0x22 _ (by decide) (by simp [isHTMLChar]), e]
+    have := hfix (0x22 :: junk') 1
+    rw [this, PL_ascii_plain html js 0 0x22 junk' (by decide) (by simp [isHTMLChar]), preserveLoop_zero]
+  · rw [hm]; exact appendUnquote_meaning _ m ⟨tb, rfl, hun⟩
+
 end JsonV.Lemmas.QuoteReformat
